@@ -1,5 +1,5 @@
 import QR.Proofs.Stream
-import QR.Proofs.SourceTie
+import QR.Proofs.SourceTieC06
 import QR.Proofs.Pinned
 /-
 C06 - the data codewords of every symbol form a conformant ISO bit stream.
